@@ -207,3 +207,15 @@ reg("C14",
     "Trusted: drivers/c14.py:describe (exception class name, isinstance facts for the four documented classes, raising frame), layout_gen.build. Assumptions: StringIO consoles (stream encoding errors outside), surrogate-free strings <= ~6000 characters, trees of nesting <= 4 (RecursionError/MemoryError from absurd sizes outside), 60 s / 120 s call deadline recorded as NoTermination; excluded options: Rule(characters of zero width) (documented ValueError), non-positive widths/paddings, Bar begin/end outside 0..size; layout_gen's user-defined wrapper kinds unwrapped. Name tables (ANSI_COLOR_NAMES, default theme) read from the tree under test.",
     "TLA+ spec Parsers.tla (+ Markup.tla lexer); TLC exhaustive enumeration of token sequences with grammar sanity invariants and per-class action coverage (M1/M2); every enumerated input replayed on the real parsers; TLC record validation of outcome classes with drift channel (M3); random Unicode and random renderable trees judged by TLC with batched delta-debugged witnesses",
     "DESIGN.md §4 C14")
+
+reg("C02",
+    "Wrap.tla formalises WrapOK(input, lines) on sequences of styled characters [code, width, id, effective style]: (a) with fold the non-whitespace characters of the output are exactly those of the input, in order; (b) fold/crop/ellipsis lines fit the width; (c) every output character that is an input character keeps its effective style; (d) a word lies on two lines only if indentation + word is wider than the width. RefWrap transcribes Text.wrap (split, expand_tabs, divide_line + chop_cells, divide, rstrip_end, Lines.justify, truncate). TLC (M1) checks WrapOK(I, RefWrap(I)) for every string over {narrow, wide, zero-width, space, tab, newline} of up to 5 (quick) / 6 (thorough) characters x widths 2..6 x 5 justify x 4 overflow x no_wrap (tab sizes 2/4 and soundness of the character identification one length shorter) and must reject four wrong designs (chop loses a character, no final truncate, style slips over a break, word broken though it fits). (M2) every enumerated class string is made concrete with distinct code points from pools starting at the edges of the tree's width table and run through the real Text.wrap: 73 000 / 544 000 enumerated calls plus 2 500 / 25 000 random texts of up to 200 characters with a base style and up to 14 overlapping / nested / duplicate / empty spans at widths 2..200; (M3) TLC computes the effective input styles from base + spans (TextOps semantics), identifies the output characters by code point and judges WrapOK clause by clause; a difference from RefWrap alone is DRIFT. Bounded; conformance, not proof.",
+    "Trusted: per-character style read back with Text.render (c05.observe), character widths from rich.cells (C13), class pools chosen with the tree's own width function. Whitespace = space/tab/newline; (a), (b) demanded only when wrapping happens (no_wrap false, overflow != ignore); spaces identified only in interior runs (justify != full) and leading runs (default/left) - padding, full-justify gaps and tab fill are only compared with RefWrap (drift); with repeated code points and dropped characters (c) degrades to 'style of a namesake' and (d) skips the word. Not reached: texts > 200 characters, tab sizes other than 2/4/8, other Unicode spaces, negative span offsets.",
+    "TLA+ spec Wrap.tla (acceptance relation + transcription of Text.wrap); TLC exhaustive model check of the design against the relation with wrong-design vacuity guards + TLC-enumerated inputs replayed on the real Text.wrap + TLC validation of the recorded outputs (trace validation; drift against the transcription)",
+    "DESIGN.md §4 C02")
+
+reg("C07",
+    "Ratio.tla transcribes ratio_distribute / ratio_reduce / Table._collapse_widths in exact integer arithmetic; TLC (M1) checks the promised properties of the transcription on every instance of a grid (totals 0..14, up to 3 (quick) / 4 (thorough) slots) and every instance is also run through the real functions and compared by TLC (drift vs broken promise). Table.tla defines the structural minimum and the clauses Rect / ExpandExact / RowOrder / CellsInColumn over a lexically projected render; MC_Table shows an ideal render of every small recipe is accepted and 8 classic corruptions rejected, and emits random builder histories; those plus seeded random recipes (1..6 columns, 0..8 rows, all options of the quantifier, wide / zero-width / multi-line / nested cells) are built as real rich.table.Table objects, rendered at 5..7 widths from the structural minimum to 200 and judged by TLC (Trace_Table). Bounded sampling plus conformance, not a proof; only the first failing clause per record is reported.",
+    "Trusted: drivers/c07.py project/build (characters attributed by per-cell alphabets, blanks and borders by colour tags; widths from rich.cells, C13). Title/caption are not body; Table.width exactness and padding sides are DRIFT only; no_wrap columns with nested renderables, ratio=0 and width caps below the content minimum are outside. Open findings: solver not minimum-aware; min_width re-imposed after collapse.",
+    "TLA+ specs Ratio.tla / Table.tla; TLC exhaustive model check of the arithmetic with one real call per model state; TLC check of the acceptance relation against ideal and corrupted renders; TLC-generated (-simulate) builder histories and seeded random recipes rendered by the real Table; TLC batch validation of projected renders; delta-minimisation where each round is one TLC batch",
+    "DESIGN.md §4 C07")
